@@ -279,6 +279,53 @@ def run(chk: Check):
     under_context(lambda ctx: setattr(ctx, "rounding", decimal.ROUND_UP), "rounding=ROUND_UP")
     under_context(lambda ctx: setattr(ctx, "prec", 3), "prec=3")
 
+    # (f) two threads writing the same stepped function of two objects at the same time (the function declaration, its
+    #     converter and the helper are shared by all objects of the process): every source line of ynca/function.py,
+    #     ynca/converters.py and ynca/helpers.py is a scheduling point, so the writers interleave statement by statement
+    from .. import dsim
+
+    crng = random.Random(chk.seed * 19 + 12)
+    pairs = [(c, attrs) for c, attrs in by_class.items() if attrs]
+    for k in range(20 if chk.tier == "quick" else 300):
+        c, attrs = crng.choice(pairs)
+        attr, f, dec, step, special = crng.choice(attrs)
+        pool = [float(n * step) for n in crng.sample(range(-40, 60), 2)]
+        rounds = [(crng.choice(pool), crng.choice(pool)) for _ in range(crng.randrange(6, 16))]
+        sim = dsim.Sim(seed=crng.randrange(1 << 30), switch_prob=crng.choice([0.3, 0.6, 0.9]))
+        sim.trace_modules = {"ynca.function", "ynca.converters", "ynca.helpers"}
+        found = []
+
+        def main(sim=sim, c=c, attr=attr, rounds=rounds, found=found, dec=dec, step=step, special=special):
+            conns = (CapConn(), CapConn())
+            objs = (c(conns[0]), c(conns[1]))
+
+            def writer(i, v):
+                try:
+                    setattr(objs[i], attr, v)
+                except Exception:  # noqa: judged elsewhere
+                    pass
+
+            for va, vb in rounds:
+                conns[0].puts.clear()
+                conns[1].puts.clear()
+                ta = sim.spawn(lambda: writer(0, va), "caller1")
+                tb = sim.spawn(lambda: writer(1, vb), "caller2")
+                ta.join()
+                tb.join()
+                for i, v in ((0, va), (1, vb)):
+                    out = conns[i].puts[0][2] if len(conns[i].puts) == 1 else None
+                    why = judge(v, out, dec, step, special) if out is not None else f"{len(conns[i].puts)} PUTs"
+                    if why:
+                        found.append((v, out, why, va, vb))
+                        return
+
+        sim.run(main, timeout_s=30)
+        chk.count_case(["attr-concurrent", c.__name__, attr, repr(rounds)], True)
+        chk.cov["concurrent_write_line_points"] = chk.cov.get("concurrent_write_line_points", 0) + getattr(sim, "n_line_points", 0)
+        if found:
+            v, out, why, va, vb = found[0]
+            chk.violation(f"attr:{c.__name__}.{attr}:concurrent", f"two threads wrote {c.__name__}.{attr} = {va!r} and = {vb!r} on two objects at the same time: the write of {v!r} transmitted {out!r}: {why}", {"class": c.__name__, "attr": attr, "value": repr(v), "observed": out, "concurrent_rounds": rounds})
+
     # ------------------------------------------------------------ model correspondence
     validated = 0
     if not any(b["obligation"].startswith(("translator", "compile")) for b in chk.broken):
